@@ -11,7 +11,7 @@ use proptest::prelude::*;
 use serde::{Deserialize, Serialize};
 use std::collections::BTreeMap;
 
-pub const RULE: &str = "(D0) every protected name (16 keywords / inputs / constants / inf / infinity and every name of get_built_in_function_idents()) x 15 binding forms (plain, output, nested in parentheses / list / record / operator chain / conditional, function value; inside a lambda body or do-block; and as a do-block local / parameter that is read back - which must fail or give the bound value): the top-level forms must fail, and in all forms what typeof / to_string / field access observe of the name at top level, and the set of root names, must be unchanged. (D1) every sequence up to length 4 (thorough: 5 over a 27-template core) over an alphabet of statement templates on names a, b: bind, rebind, copy, nested assignment `a = (b = 5) + 1`, self-nested `a = (a = 1) + 1`, list-nested, partially failing `[a = 1, nope]`, `output a`, `output a = 1`, do-block shadowing / nested assignment inside a do-block / do-block returning a closure, functions whose parameters reuse a / b, calls, closures over a (reading it, rebinding it in a do-block) called at top level and from inside a function whose parameter is called a, assignment inside a lambda body (with parameters; anonymous without parameters, with and without captured names), failing statements, attempts to bind keywords, inputs, constants and built-in names; each statement is evaluated like a REPL line and compared with a bind-once reference model (success / failure, the whole root environment, values). (D2) random sessions of 5-40 generated statements with rebinding attempts and failing statements, checked with history invariants: snapshot monotonicity, no insert into the root environment for a key it holds (hook H2), reserved names never bound, root names are a subset of the names assigned in top-level position. (D3) sessions of 2-7 one-line statements (heap-valued bindings, nested bindings inside lines that fail later, rebinding attempts, allocating lines) typed into the interactive CLI on a pseudo-terminal; afterwards every name is printed and must show what the same lines give in-process. (D4) 6 ways of keeping an anonymous function whose body mentions an unbound name x 7 inner scopes that bind that name to the function value (do-block local, parameter, nested block, block inside a function / a via callback, failing block, via a second local) x 4 names: what the function does when reached through its container (call results and failures, display, self-equality) must be the same before and after, and the name must not appear at top level. (D5) `x = C[(x = V)]` and `output x = C[(x = V)]` for 38 contexts C (operands, list / record items, computed keys, list / record / argument spreads, index and field targets, conditions and branches, prefix / postfix operands, ??, pipelines, calls): the statement must be refused, x keeps the value of the inner binding and the root environment is never overwritten. Non-trivial = the history contains a (re)binding attempt on an already bound or reserved name, or a shadowing scope; distinct by the statement sequence.";
+pub const RULE: &str = "(D0) every protected name (16 keywords / inputs / constants / inf / infinity and every name of get_built_in_function_idents()) x 15 binding forms (plain, output, nested in parentheses / list / record / operator chain / conditional, function value; inside a lambda body or do-block; and as a do-block local / parameter that is read back - which must fail or give the bound value): the top-level forms must fail, and in all forms what typeof / to_string / field access observe of the name at top level, and the set of root names, must be unchanged. (D1) every sequence up to length 4 (thorough: 5 over a 29-template core) over an alphabet of statement templates on names a, b: bind, rebind, copy, nested assignment `a = (b = 5) + 1`, self-nested `a = (a = 1) + 1`, list-nested, partially failing `[a = 1, nope]`, `output a`, `output a = 1`, do-block shadowing (also by the block's `return name = ...` statement) / nested assignment inside a do-block / do-block returning a closure, functions whose parameters reuse a / b, calls, closures over a (reading it, rebinding it in a do-block) called at top level and from inside a function whose parameter is called a, assignment inside a lambda body (with parameters; anonymous without parameters, with and without captured names), failing statements, attempts to bind keywords, inputs, constants and built-in names; each statement is evaluated like a REPL line and compared with a bind-once reference model (success / failure, the whole root environment, values). (D2) random sessions of 5-40 generated statements with rebinding attempts and failing statements, checked with history invariants: snapshot monotonicity, no insert into the root environment for a key it holds (hook H2), reserved names never bound, root names are a subset of the names assigned in top-level position. (D3) sessions of 2-7 one-line statements (heap-valued bindings, nested bindings inside lines that fail later, rebinding attempts, allocating lines) typed into the interactive CLI on a pseudo-terminal; afterwards every name is printed and must show what the same lines give in-process. (D4) 6 ways of keeping an anonymous function whose body mentions an unbound name x 7 inner scopes that bind that name to the function value (do-block local, parameter, nested block, block inside a function / a via callback, failing block, via a second local) x 4 names: what the function does when reached through its container (call results and failures, display, self-equality) must be the same before and after, and the name must not appear at top level. (D5) `x = C[(x = V)]` and `output x = C[(x = V)]` for 38 contexts C (operands, list / record items, computed keys, list / record / argument spreads, index and field targets, conditions and branches, prefix / postfix operands, ??, pipelines, calls): the statement must be refused, x keeps the value of the inner binding and the root environment is never overwritten. Non-trivial = the history contains a (re)binding attempt on an already bound or reserved name, or a shadowing scope; distinct by the statement sequence.";
 pub const ASSUMPTIONS: &[&str] = &[
     "hook H2 (thread-local log of Environment::insert) is a monitor only; with the feature off the code is unchanged",
     "a statement that fails half-way may keep the bindings its already-evaluated inner assignments made (the statement only requires that bound names never change)",
@@ -72,9 +72,11 @@ pub const TEMPLATES: &[&str] = &[
     /* 34 */ "(() => [t = a][0])()",
     /* 35 */ "b = () => do {\n  a = a + 1\n  return a\n}",
     /* 36 */ "((a) => b())(10)",
+    /* 37 */ "do {\n  return a = 9\n}",
+    /* 38 */ "do {\n  b = 1\n  return b = a\n}",
 ];
 
-const CORE: &[usize] = &[0, 1, 2, 3, 4, 5, 6, 7, 8, 10, 11, 12, 13, 14, 15, 17, 18, 19, 27, 28, 29, 30, 32, 33, 34, 35, 36];
+const CORE: &[usize] = &[0, 1, 2, 3, 4, 5, 6, 7, 8, 10, 11, 12, 13, 14, 15, 17, 18, 19, 27, 28, 29, 30, 32, 33, 34, 35, 36, 37, 38];
 
 fn num(v: &V) -> Option<f64> {
     match v {
@@ -160,7 +162,9 @@ fn model_step(t: usize, env: &mut Env) -> Result<(), ()> {
         }
         // 34: an anonymous zero-parameter closure over a that assigns a call-local name
         9 | 26 | 34 => env.get("a").map(|_| ()).ok_or(()),
-        11 | 29 => Ok(()),
+        11 | 29 | 37 => Ok(()),
+        // the return statement of a block is a block statement like the others: it may shadow
+        38 => env.get("a").map(|_| ()).ok_or(()),
         12 => {
             if bound(env, "b") {
                 Err(())
@@ -247,7 +251,8 @@ fn model_value(t: usize, env_after: &Env, env_before: &Env) -> Option<f64> {
         4 => env_after.get("a").and_then(num),
         5 => Some(6.0),
         9 | 26 | 34 => env_before.get("a").and_then(num),
-        11 => Some(9.0),
+        11 | 37 => Some(9.0),
+        38 => env_before.get("a").and_then(num),
         12 => Some(7.0),
         14 => Some(6.0),
         16 => Some(30.0),
@@ -465,7 +470,7 @@ impl Check for History {
                     let src = TEMPLATES[ti];
                     let before = env.clone();
                     let want = model_step(ti, &mut env);
-                    if want.is_err() || matches!(ti, 11 | 12 | 27 | 28 | 29 | 30 | 32 | 33 | 34 | 35 | 36) {
+                    if want.is_err() || matches!(ti, 11 | 12 | 27 | 28 | 29 | 30 | 32 | 33 | 34 | 35 | 36 | 37 | 38) {
                         nontrivial = true;
                     }
                     verif_hooks::arm();
